@@ -18,7 +18,7 @@ META = {
              "one side; distinct by structural hash; non-trivial = contains a Barrier/annotation kind or an explicit relation"),
     "assumptions": ["copies are compared position-wise along the operation listing (signature, relation type, index of the referenced operation, schedule relative to the first start)"],
     "floors": {
-        "quick": {"copies_compared": 6000, "mutation_independence_checks": 3000, "kinds_min_instances": 20, "unrolled_copies_compared": 5000, "listed_then_copied_compared": 5000},
+        "quick": {"copies_compared": 6000, "mutation_independence_checks": 3000, "kinds_min_instances": 20, "unrolled_copies_compared": 5000, "listed_then_copied_compared": 5000, "flattened_copies_compared": 5000, "empty_placeholder_checks": 3000},
         "thorough": {"copies_compared": 60000, "mutation_independence_checks": 30000, "kinds_min_instances": 200},
     },
 }
@@ -191,6 +191,43 @@ def check_program(prog: Dict[str, Any], acc: Acc, flags=None):
                 acc.finding("copy/acquisition-indices", f"acquisition indices of the copy differ from the original's ({route})", case,
                             {"original": acquisition(ops_l)[:6], "copy": acquisition(ops_k)[:6]})
             acc.count("listed_then_copied_compared")
+        # ---- route 6: copy of a FLATTENED circuit (flatten turns relations to sub-circuits into group relations of any relation
+        #      type; they must be copied with their type and re-pointed)
+        built6 = bp.build(prog, bp.Ctx(prog.get("settings")))
+        flat = built6.top.circuit.flatten()
+        ops_f, t_f = listing_with_shadow(flat)
+        if len(ops_f) <= 220:
+            snap_f = snapshot(ops_f, t_f)
+            copy6 = flat.circuit_structure.copy()
+            outer6 = DeclarativeCircuit()
+            outer6.add(flat)
+            for route, target in (("structure.copy of flattened", copy6), ("flattened added to empty circuit", outer6)):
+                ops_k, t_k = listing_with_shadow(target)
+                compare_snapshots(acc, case, route, snap_f, snapshot(ops_k, t_k))
+                acc.count("flattened_copies_compared")
+        # ---- route 7: an EMPTY sub-circuit is nested (copied) and the caller's own empty circuit is filled afterwards; and the
+        #      copy's empty placeholder is filled: neither side may see the other's additions
+        built7 = bp.build(prog, bp.Ctx(prog.get("settings")))
+        host = built7.top.circuit
+        placeholder = DeclarativeCircuit()
+        host.add(placeholder)
+        ops_h, t_h = listing_with_shadow(host)
+        snap_h = snapshot(ops_h, t_h)
+        placeholder.add(bp.make_op({"k": "Ry90", "q": [1]}, ctx, [built7.top]))
+        placeholder.add(bp.make_op({"k": "CPhase", "q": [0, 1]}, ctx, [built7.top]))
+        ops_h2, t_h2 = listing_with_shadow(host)
+        acc.count("empty_placeholder_checks")
+        if snapshot(ops_h2, t_h2) != snap_h:
+            acc.finding("independence/empty-placeholder", "filling the caller's own (formerly empty) circuit after it was nested changed what the enclosing circuit reports",
+                        case, {"before": len(ops_h), "after": len(ops_h2)})
+        copy7 = host.circuit_structure.copy()
+        empties = [c for c in copy7.get_sub_composite_operations() if c.empty_composite]
+        if empties:
+            empties[-1].add(bp.make_op({"k": "Rx180", "q": [0]}, ctx, [built7.top]))
+            ops_h3, t_h3 = listing_with_shadow(host)
+            if snapshot(ops_h3, t_h3) != snap_h:
+                acc.finding("independence/empty-placeholder", "filling an empty sub-circuit of the COPY changed what the original reports", case,
+                            {"before": len(ops_h), "after": len(ops_h3)})
         # ---- independence: mutate one side, the other side's snapshot must not move
         if mut["route"] == "structure_copy":
             # wrap the structure copy so that the DeclarativeCircuit mutators are available on it
